@@ -21,13 +21,35 @@ func vJoinSetup(timed bool) *vJoinEnv {
 	JS := vParam("JS", 2)
 	M := vParam("M", 3)
 	e := &vJoinEnv{}
-	in := make(chan int, M+1)
+	// either a roomy buffered input and an eager consumer, or an unbuffered input (so the output
+	// buffer holds a single slice) and a LAZY consumer that takes a slice only when the discipline is
+	// blocked on the full output
+	lazy := vChoose("lazy-consumer", 2) == 1
+	capIn := M + 1
+	if lazy {
+		capIn = 0
+	}
+	in := make(chan int, capIn)
 	for i := 0; i < M; i++ {
 		x := vNondetInt("x")
 		e.items = append(e.items, x)
-		in <- x
+		if lazy {
+			vPark(in, x)
+		} else {
+			in <- x
+		}
 	}
-	close(in)
+	if lazy {
+		vOnBlock(in, func() {
+			if vIsClosed(in) {
+				vDecline()
+				return
+			}
+			close(in)
+		})
+	} else {
+		close(in)
+	}
 	opts := Opts[int]{Input: in, JoinSize: uint(JS), NoCopy: vChoose("nocopy", 2) == 1}
 	if timed {
 		opts.Timeout = time.Duration(vNondetI64("timeout"))
@@ -38,7 +60,17 @@ func vJoinSetup(timed bool) *vJoinEnv {
 	d, err := New(opts)
 	vAssume(err == nil)
 	e.d = d
-	vSink(d.output)
+	if lazy {
+		vOnBlock(d.output, func() {
+			if len(d.output) == 0 {
+				vDecline()
+				return
+			}
+			<-d.output
+		})
+	} else {
+		vSink(d.output)
+	}
 	vOnSend(d.output, func(v any) {
 		s := v.([]int)
 		vAssert(len(s) > 0, "C03: no output slice is empty")
@@ -100,7 +132,6 @@ func VerifC03_join_untimed() {
 	for k := 0; k+1 < len(e.lens); k++ {
 		vAssert(e.lens[k] == JS, "C09: without a timeout every slice except the last has exactly JoinSize elements")
 	}
-	vAssert(vTickerCount() == 0, "no ticker without a timeout")
 	vReach("end")
 }
 
